@@ -29,6 +29,84 @@ static void st (void)
           con.write_buffer_send_offset, pv->pos, pv->end);
 }
 
+
+/* ---- composed engine (Mhd.ConnRead): a fabricated connection on a real pool, fed through the real
+   get_request_line / switch_to_rq_headers_processing / get_req_headers / check_and_grow_read_buffer_space ---- */
+static struct MHD_Daemon rdmn;
+static struct MHD_Connection rcon;
+
+/* daemon.c's static unescape_wrapper (the default unescape callback) */
+static size_t h_unescape (void *cls, struct MHD_Connection *c, char *val)
+{
+  bool broken; (void) cls;
+  if (0 <= c->daemon->client_discipline) return MHD_str_pct_decode_in_place_strict_ (val);
+  return MHD_str_pct_decode_in_place_lenient_ (val, &broken);
+}
+
+static void cr_release (void)
+{
+  if (rcon.rp.response) { MHD_destroy_response (rcon.rp.response); rcon.rp.response = NULL; }
+  if (rcon.pool) { MHD_pool_destroy (rcon.pool); rcon.pool = NULL; }
+}
+
+static int cr_reading (void)
+{
+  return MHD_CONNECTION_INIT == rcon.state || MHD_CONNECTION_REQ_LINE_RECEIVING == rcon.state
+         || MHD_CONNECTION_REQ_HEADERS_RECEIVING == rcon.state;
+}
+
+/* the `while` loop of MHD_connection_handle_idle over the receiving states, then what
+   MHD_connection_update_event_loop_info does for a connection that has to read */
+static void cr_idle (void)
+{
+  rcon.in_idle = true;   /* as MHD_connection_handle_idle does (MHD_queue_response must not re-enter it) */
+  while (1)
+  {
+    switch (rcon.state)
+    {
+    case MHD_CONNECTION_INIT:
+    case MHD_CONNECTION_REQ_LINE_RECEIVING:
+      if (get_request_line (&rcon)) continue;
+      break;
+    case MHD_CONNECTION_REQ_LINE_RECEIVED:
+      switch_to_rq_headers_processing (&rcon);
+      continue;
+    case MHD_CONNECTION_REQ_HEADERS_RECEIVING:
+      if (get_req_headers (&rcon, false)) continue;
+      break;
+    default:
+      break;
+    }
+    break;
+  }
+  if (cr_reading ())
+  {
+    rcon.event_loop_info = MHD_EVENT_LOOP_INFO_READ;
+    (void) check_and_grow_read_buffer_space (&rcon);
+  }
+  rcon.in_idle = false;
+}
+
+static void cr_show (void)
+{
+  if (cr_reading () || MHD_CONNECTION_HEADERS_RECEIVED == rcon.state)
+  {
+    struct MemoryPoolView *pv = (struct MemoryPoolView *) rcon.pool;
+    size_t ne = 0; struct MHD_HTTP_Req_Header *h;
+    for (h = rcon.rq.headers_received; NULL != h; h = h->next) ne++;
+    printf ("ph=%s ", MHD_CONNECTION_HEADERS_RECEIVED == rcon.state ? "done"
+            : (MHD_CONNECTION_REQ_HEADERS_RECEIVING == rcon.state ? "hdrs" : "line"));
+    if (NULL == rcon.read_buffer) printf ("rb=null "); else printf ("rb=%zu ", (size_t) ((uint8_t *) rcon.read_buffer - pv->memory));
+    printf ("rbs=%zu rbo=%zu pos=%zu end=%zu ne=%zu sync=1 win=", rcon.read_buffer_size, rcon.read_buffer_offset, pv->pos, pv->end, ne);
+    if (0 == rcon.read_buffer_offset) putchar ('-'); else lp_puthex (stdout, rcon.read_buffer, rcon.read_buffer_offset);
+    putchar ('\n');
+  }
+  else if (MHD_CONNECTION_CLOSED == rcon.state || NULL == rcon.rp.response)
+    puts ("ph=err code=0");
+  else
+    printf ("ph=err code=%u\n", rcon.rp.responseCode);
+}
+
 int main (void)
 {
   struct lp_line l = {0};
@@ -53,6 +131,38 @@ int main (void)
       rb_base = con.read_buffer ? (size_t) ((uint8_t *) con.read_buffer - pv->memory) : 0;
       sending = 0;
       printf ("ok "); st (); printf (" size=%zu\n", pv->size);
+      continue;
+    }
+    if (!strcmp (op, "crinit") && l.n == 4)
+    { /* crinit <pool_size> <pool_increment> <client_discipline> */
+      char *endp; long lvl = strtol (l.w[3], &endp, 10);
+      if (!(lp_u64 (l.w[1], &a) && lp_u64 (l.w[2], &b)) || a < 64 || a >= ((uint64_t) 1 << 40) || b >= ((uint64_t) 1 << 40)
+          || *endp || lvl < -8 || lvl > 8) { puts ("bad-op"); continue; }
+      cr_release ();
+      memset (&rdmn, 0, sizeof(rdmn)); memset (&rcon, 0, sizeof(rcon));
+      rdmn.pool_size = (size_t) a; rdmn.pool_increment = (size_t) b; rdmn.client_discipline = (int) lvl;
+      rdmn.unescape_callback = &h_unescape;
+      rcon.daemon = &rdmn; rcon.socket_fd = MHD_INVALID_SOCKET; rcon.state = MHD_CONNECTION_INIT;
+      rcon.pool = MHD_pool_create (rdmn.pool_size);
+      memset (((struct MemoryPoolView *) rcon.pool)->memory, 0, ((struct MemoryPoolView *) rcon.pool)->size);
+      MHD_connection_set_initial_state_ (&rcon);
+      printf ("ok "); cr_show ();
+      continue;
+    }
+    if (!strcmp (op, "crfeed") && l.n == 2)
+    { /* crfeed <hex>: as MHD_connection_handle_read + MHD_connection_handle_idle do, as long as the connection reads */
+      size_t len = 0, done = 0; uint8_t *bytes = lp_unhex (l.w[1], &len);
+      if (NULL == bytes || 0 == rdmn.pool_size) { free (bytes); puts ("bad-op"); continue; }
+      while (done < len && cr_reading () && rcon.read_buffer_size > rcon.read_buffer_offset)
+      {
+        size_t k = rcon.read_buffer_size - rcon.read_buffer_offset;
+        if (k > len - done) k = len - done;
+        memcpy (rcon.read_buffer + rcon.read_buffer_offset, bytes + done, k);   /* inside the window: ASan checks it */
+        rcon.read_buffer_offset += k; done += k;
+        cr_idle ();
+      }
+      free (bytes);
+      cr_show ();
       continue;
     }
     if (!strcmp (op, "nospace") && l.n == 9)
@@ -187,6 +297,7 @@ int main (void)
     }
   }
   if (con.pool) MHD_pool_destroy (con.pool);
+  cr_release ();
   free (l.buf);
   return 0;
 }
